@@ -1270,6 +1270,9 @@ func c10blockLoop(p *core.Prog, res *core.Result, fi *core.FuncInfo, rule string
 	}
 }
 
+// c10exclusive: library positioning calls whose bound excludes the key itself.
+var c10exclusive = map[string]string{"SeekLT": "which lands strictly below the key (pebble: 'the last key less than the given key')"}
+
 // c10seekArg (S7): the library positioning call receives the method's own key parameter.
 func c10seekArg(p *core.Prog, res *core.Result, fi *core.FuncInfo, rule string) {
 	info := fi.Pkg.TypesInfo
@@ -1295,6 +1298,10 @@ func c10seekArg(p *core.Prog, res *core.Result, fi *core.FuncInfo, rule string) 
 		}
 		n++
 		key := fmt.Sprintf("%s|library seek#%d", fkey, n)
+		if sel, ok := c.Fun.(*ast.SelectorExpr); ok && c10exclusive[sel.Sel.Name] != "" {
+			res.Bad(rule, key, p.Pos(c.Pos()), fmt.Sprintf("%s positions with %s, %s: the interface's seek (forward and reverse) is inclusive — a key equal to the requested one must be the landing position, as it is in the sibling drivers", fkey, sel.Sel.Name, c10exclusive[sel.Sel.Name]))
+			return true
+		}
 		if defOrUse(info, c.Args[0]) == param {
 			res.OK(rule, key, p.Pos(c.Pos()), "the library is positioned at the caller's key itself")
 		} else {
